@@ -282,6 +282,8 @@ mod table;
 mod tracing;
 mod tracked_struct;
 mod views;
+#[cfg(feature = "verif")]
+pub mod verif;
 mod zalsa;
 mod zalsa_local;
 
